@@ -17,7 +17,10 @@ func checkC20(e *Env) {
 		"Not decided: everything else in the statement — process composition, http.ServeFile behaviour, HAR handling, flags, I/O faults of the tools."
 	e.R.RuleText = "E10 path-to-URL taint by provenance; dominating-gate rule on the main packages; E7 type-set inclusion"
 
-	// (a)
+	// (a) a string that derives from a file-system path must never be parsed as a URL
+	// reference, not even after EscapedPath()/PathEscape: both leave ':' alone, so a colon
+	// in the first segment becomes a scheme.  Only (*url.URL).String() of a URL whose Path
+	// field holds the path is safe to re-parse (it prefixes "./" when needed).
 	n := 0
 	for _, fn := range e.P.Funcs {
 		if !strings.HasPrefix(load.FuncName(fn), "bundle/cmd/gen-bundle.") {
@@ -34,14 +37,12 @@ func checkC20(e *Env) {
 					continue
 				}
 				arg := c.Call.Args[len(c.Call.Args)-1]
-				t := prov.Of(arg)
 				n++
 				key := load.FuncName(fn) + ":" + name + "#" + itoa(n)
-				fsDerived := strings.Contains(t, "call:filepath.") || strings.Contains(t, "param:path")
-				if fsDerived && !strings.Contains(t, "call:url.PathEscape(") {
-					e.R.Fail("PATHURL", key, e.P.InstrPos(in), "a file-system path is parsed as a URL reference: '#', '?', '%' and ':' in file names change the URL's structure instead of being escaped", "argument "+short(t))
+				if why := fsDerived(arg, 0, map[ssa.Value]bool{}); why != "" {
+					e.R.Fail("PATHURL", key, e.P.InstrPos(in), "a string derived from a file-system path is parsed as a URL reference: '#', '?', '%' or a ':' in the first segment change the URL's structure", "argument "+short(prov.Of(arg)), "derivation: "+why)
 				} else {
-					e.R.OK("PATHURL", key, e.P.InstrPos(in), "argument does not derive from a file-system path: "+short(t))
+					e.R.OK("PATHURL", key, e.P.InstrPos(in), "argument does not derive from a file-system path: "+short(prov.Of(arg)))
 				}
 			}
 		}
@@ -126,4 +127,86 @@ func checkC20(e *Env) {
 	e.R.Floor("PATHURL", 4)
 	e.R.Floor("GATE", 3)
 	e.R.Floor("TABLE", 1)
+}
+
+// fsDerived: v is a string (or URL object) derived from a file-system path in a
+// form that is unsafe to parse as a URL reference.  Returns "" or the derivation.
+func fsDerived(v ssa.Value, d int, seen map[ssa.Value]bool) string {
+	if d > 12 || seen[v] {
+		return ""
+	}
+	seen[v] = true
+	switch x := v.(type) {
+	case *ssa.Parameter:
+		// the path parameter of a filepath.Walk callback or of the conversion helper
+		if x.Name() == "path" || x.Name() == "relPath" {
+			return "parameter " + x.Name()
+		}
+	case *ssa.FreeVar:
+		return ""
+	case *ssa.Call:
+		name := prov.CalleeName(&x.Call)
+		switch {
+		case strings.HasPrefix(name, "filepath."):
+			return name
+		case name == "(*url.URL).String":
+			return "" // designed to re-parse to the same URL
+		case name == "(*url.URL).EscapedPath" || name == "url.PathEscape" || name == "url.QueryEscape" || name == "(*url.URL).RequestURI":
+			for _, a := range x.Call.Args {
+				if w := fsDerived(a, d+1, seen); w != "" {
+					return name + "(" + w + ") — escaping keeps ':' and is not a URL reference"
+				}
+			}
+		case strings.HasPrefix(name, "strings.") || name == "path.Join" || name == "path.Clean" || name == "fmt.Sprintf":
+			for _, a := range x.Call.Args {
+				if w := fsDerived(a, d+1, seen); w != "" {
+					return name + "(" + w + ")"
+				}
+			}
+		}
+	case *ssa.Extract:
+		return fsDerived(x.Tuple, d+1, seen)
+	case *ssa.BinOp:
+		if w := fsDerived(x.X, d+1, seen); w != "" {
+			return w
+		}
+		return fsDerived(x.Y, d+1, seen)
+	case *ssa.Phi:
+		for _, ed := range x.Edges {
+			if w := fsDerived(ed, d+1, seen); w != "" {
+				return w
+			}
+		}
+	case *ssa.Convert:
+		return fsDerived(x.X, d+1, seen)
+	case *ssa.ChangeType:
+		return fsDerived(x.X, d+1, seen)
+	case *ssa.MakeInterface:
+		return fsDerived(x.X, d+1, seen)
+	case *ssa.UnOp:
+		return fsDerived(x.X, d+1, seen)
+	case *ssa.Alloc:
+		// a url.URL literal whose Path (or any string field) holds a file-system path
+		for _, ref := range *x.Referrers() {
+			switch r := ref.(type) {
+			case *ssa.FieldAddr:
+				for _, r2 := range *r.Referrers() {
+					if st, ok := r2.(*ssa.Store); ok && st.Addr == r {
+						if w := fsDerived(st.Val, d+1, seen); w != "" {
+							return "url.URL{" + w + "}"
+						}
+					}
+				}
+			case *ssa.Store:
+				if r.Addr == x {
+					if w := fsDerived(r.Val, d+1, seen); w != "" {
+						return w
+					}
+				}
+			}
+		}
+	case *ssa.Slice:
+		return fsDerived(x.X, d+1, seen)
+	}
+	return ""
 }
